@@ -1,6 +1,6 @@
 use crate::{GameServer, META_STATE};
 use futures_util::{StreamExt, TryStreamExt};
-use kube::runtime::watcher::Config;
+use kube::runtime::watcher::{Config, Event};
 use kube::runtime::{WatchStreamExt, watcher};
 use kube::{Api, Client};
 use passage_adapters::discovery::DiscoveryAdapter;
@@ -48,26 +48,25 @@ impl AgonesDiscoveryAdapter {
         };
 
         // create the watch stream
-        let mut stream = watcher(servers, watch_config)
-            .default_backoff()
-            .applied_objects()
-            .boxed();
+        let mut stream = watcher(servers, watch_config).default_backoff().boxed();
 
         // start listener
         let _inner = Arc::clone(&inner);
         let _token = token.clone();
         tokio::spawn(async move {
             info!("starting game server watcher");
+            // the targets of a (re-)list are collected here and replace the cache once it is complete
+            let mut listed: Option<Vec<Target>> = None;
             loop {
                 // get next server update
-                let maybe_server = tokio::select! {
+                let maybe_event = tokio::select! {
                     biased;
                     _ = _token.cancelled() => break,
-                    maybe_server = stream.try_next() => maybe_server,
+                    maybe_event = stream.try_next() => maybe_event,
                 };
 
-                let server = match maybe_server {
-                    Ok(Some(server)) => server,
+                let event = match maybe_event {
+                    Ok(Some(event)) => event,
                     Ok(None) => break,
                     Err(err) => {
                         warn!(err = ?err, "error while watching game servers");
@@ -75,38 +74,82 @@ impl AgonesDiscoveryAdapter {
                     }
                 };
 
-                // map to target
-                let target: Target = match server.try_into() {
-                    Ok(target) => target,
-                    Err(err) => {
-                        warn!(err = ?err, "error while converting game server to target");
-                        continue;
+                match event {
+                    // a (re-)list starts, the cache stays as it is until the list is complete
+                    Event::Init => listed = Some(Vec::new()),
+                    Event::InitApply(server) => {
+                        if let (Some(listed), Some(target)) = (&mut listed, ready_target(server)) {
+                            upsert(listed, target);
+                        }
                     }
-                };
-
-                // if ready, replace or push
-                let mut inner = _inner.write().await;
-                let state = target.meta.get(META_STATE).cloned().unwrap_or_default();
-                if state == "Ready" || state == "Allocated" {
-                    info!(uid = target.identifier, "adding game server to cache");
-                    let found = inner.iter_mut().find(|i| i.identifier == target.identifier);
-                    match found {
-                        Some(found) => *found = target,
-                        None => inner.push(target),
+                    // everything that was not listed again does not exist anymore
+                    Event::InitDone => {
+                        if let Some(listed) = listed.take() {
+                            info!(count = listed.len(), "replacing game server cache");
+                            *_inner.write().await = listed;
+                        }
                     }
-                    continue;
-                }
-
-                // remove
-                info!(uid = target.identifier, "removing game server from cache");
-                let found = inner.iter().position(|i| i.identifier == target.identifier);
-                if let Some(found) = found {
-                    inner.swap_remove(found);
+                    Event::Apply(server) => {
+                        let name = server.metadata.name.clone();
+                        let mut inner = _inner.write().await;
+                        match ready_target(server) {
+                            // if ready, replace or push
+                            Some(target) => {
+                                info!(uid = target.identifier, "adding game server to cache");
+                                upsert(&mut inner, target);
+                            }
+                            // neither ready nor usable, remove
+                            None => {
+                                if let Some(name) = name {
+                                    info!(uid = name, "removing game server from cache");
+                                    remove(&mut inner, &name);
+                                }
+                            }
+                        }
+                    }
+                    Event::Delete(server) => {
+                        if let Some(name) = server.metadata.name {
+                            info!(uid = name, "removing deleted game server from cache");
+                            remove(&mut *_inner.write().await, &name);
+                        }
+                    }
                 }
             }
         });
 
         Ok(Self { inner, token })
+    }
+}
+
+/// Converts a game server into a target if it can currently accept players.
+fn ready_target(server: GameServer) -> Option<Target> {
+    // map to target
+    let target: Target = match server.try_into() {
+        Ok(target) => target,
+        Err(err) => {
+            warn!(err = ?err, "error while converting game server to target");
+            return None;
+        }
+    };
+
+    let state = target.meta.get(META_STATE).cloned().unwrap_or_default();
+    (state == "Ready" || state == "Allocated").then_some(target)
+}
+
+fn upsert(targets: &mut Vec<Target>, target: Target) {
+    let found = targets
+        .iter_mut()
+        .find(|i| i.identifier == target.identifier);
+    match found {
+        Some(found) => *found = target,
+        None => targets.push(target),
+    }
+}
+
+fn remove(targets: &mut Vec<Target>, identifier: &str) {
+    let found = targets.iter().position(|i| i.identifier == identifier);
+    if let Some(found) = found {
+        targets.swap_remove(found);
     }
 }
 
